@@ -867,4 +867,138 @@ theorem print_expr_roundtrip_unique (e : GExpr) (hs : inSubset e = true) (hp : e
   obtain ⟨h1, h2⟩ := parse_deterministic (print_expr_roundtrip e hs hp rest hr hh) h
   exact ⟨h1.symm, h2.symm⟩
 
+/-! ## `escape_go_string_decodes`
+
+Go's lexing of an *interpreted string literal* (spec "String literals", "Rune literals"), as a one-character-at-a-time
+state machine started after the opening quote: it returns the decoded value and the input after the closing quote.
+(`\x`, octal and `\U` escapes are legal Go that the printer never writes; this reading rejects them — the theorem
+only needs the forms the printer produces to be read as Go reads them.) -/
+
+def hexVal (c : Char) : Option Nat :=
+  if '0' ≤ c ∧ c ≤ '9' then some (c.toNat - 48)
+  else if 'a' ≤ c ∧ c ≤ 'f' then some (c.toNat - 87)
+  else if 'A' ≤ c ∧ c ≤ 'F' then some (c.toNat - 55)
+  else none
+
+/-- the single-character escapes valid inside a string literal -/
+def simpleEscape (e : Char) : Option Char :=
+  if e = 'n' then some '\n' else if e = 'r' then some '\r' else if e = 't' then some '\t'
+  else if e = '\\' then some '\\' else if e = '"' then some '"'
+  else if e = 'a' then some (Char.ofNat 7) else if e = 'b' then some (Char.ofNat 8)
+  else if e = 'f' then some (Char.ofNat 12) else if e = 'v' then some (Char.ofNat 11) else none
+
+inductive LexSt where
+  | normal | esc | uni (k acc : Nat)
+
+def consRes (c : Char) : Option (List Char × List Char) → Option (List Char × List Char)
+  | some (s, r) => some (c :: s, r)
+  | none => none
+
+def lexStr : LexSt → List Char → Option (List Char × List Char)
+  | _, [] => none                                         -- literal not terminated
+  | .normal, c :: rest =>
+      if c = '"' then some ([], rest)
+      else if c = '\n' then none                          -- newline in string
+      else if c = '\\' then lexStr .esc rest
+      else consRes c (lexStr .normal rest)
+  | .esc, e :: rest =>
+      if e = 'u' then lexStr (.uni 0 0) rest
+      else match simpleEscape e with
+        | some ch => consRes ch (lexStr .normal rest)
+        | none => none                                    -- unknown escape
+  | .uni k acc, d :: rest =>
+      match hexVal d with
+      | none => none
+      | some x =>
+        if k = 3 then
+          (if 0xD800 ≤ acc * 16 + x ∧ acc * 16 + x ≤ 0xDFFF then none      -- surrogate half
+           else consRes (Char.ofNat (acc * 16 + x)) (lexStr .normal rest))
+        else lexStr (.uni (k + 1) (acc * 16 + x)) rest
+
+theorem hexVal_hexDigit : ∀ k : Fin 16, hexVal (hexDigit k.val) = some k.val := by decide
+
+theorem lexStr_hex4 (n : Nat) (hn : n < 0xD800) (rest : List Char) :
+    lexStr (.uni 0 0) (hex4 n ++ rest) = consRes (Char.ofNat n) (lexStr .normal rest) := by
+  have h1 := hexVal_hexDigit ⟨n / 4096 % 16, by omega⟩
+  have h2 := hexVal_hexDigit ⟨n / 256 % 16, by omega⟩
+  have h3 := hexVal_hexDigit ⟨n / 16 % 16, by omega⟩
+  have h4 := hexVal_hexDigit ⟨n % 16, by omega⟩
+  simp only at h1 h2 h3 h4
+  have hv : (((0 * 16 + n / 4096 % 16) * 16 + n / 256 % 16) * 16 + n / 16 % 16) * 16 + n % 16 = n := by omega
+  simp only [hex4, List.cons_append, List.nil_append, lexStr, h1, h2, h3, h4]
+  simp only [hv]
+  have : ¬ (0xD800 ≤ n ∧ n ≤ 0xDFFF) := by omega
+  simp [this]
+
+theorem escapeChar_cases (c : Char) :
+    escapeChar c =
+      if c = '"' then ['\\', '"'] else if c = '\\' then ['\\', '\\'] else if c = '\n' then ['\\', 'n']
+      else if c = '\r' then ['\\', 'r'] else if c = '\t' then ['\\', 't']
+      else if isControl c = true then '\\' :: 'u' :: hex4 c.toNat else [c] := by
+  unfold escapeChar escapeTable Gen.GoPrintTables.escapes
+  simp only [List.lookup]
+  by_cases h1 : c = '"'
+  · subst h1; rfl
+  by_cases h2 : c = '\\'
+  · subst h2; rfl
+  by_cases h3 : c = '\n'
+  · subst h3; rfl
+  by_cases h4 : c = '\r'
+  · subst h4; rfl
+  by_cases h5 : c = '\t'
+  · subst h5; rfl
+  have b1 : (c == '"') = false := by simpa using h1
+  have b2 : (c == '\\') = false := by simpa using h2
+  have b3 : (c == '\n') = false := by simpa using h3
+  have b4 : (c == '\r') = false := by simpa using h4
+  have b5 : (c == '\t') = false := by simpa using h5
+  simp [b1, b2, b3, b4, b5, h1, h2, h3, h4, h5]
+
+/-- one source character: its escape, read back by Go's lexer, is the character -/
+theorem lexStr_escapeChar (c : Char) (tail : List Char) :
+    lexStr .normal (escapeChar c ++ tail) = consRes c (lexStr .normal tail) := by
+  rw [escapeChar_cases]
+  by_cases h1 : c = '"'
+  · subst h1; simp [lexStr, simpleEscape]
+  by_cases h2 : c = '\\'
+  · subst h2; simp [lexStr, simpleEscape]
+  by_cases h3 : c = '\n'
+  · subst h3; simp [lexStr, simpleEscape]
+  by_cases h4 : c = '\r'
+  · subst h4; simp [lexStr, simpleEscape]
+  by_cases h5 : c = '\t'
+  · subst h5; simp [lexStr, simpleEscape]
+  simp only [h1, h2, h3, h4, h5, if_false]
+  by_cases hc : isControl c = true
+  · simp only [hc, if_true]
+    have hn : c.toNat < 0xD800 := by
+      simp only [isControl, Bool.or_eq_true, Bool.and_eq_true, decide_eq_true_eq] at hc
+      omega
+    simp only [List.cons_append, lexStr, if_true]
+    simp only [show ('\\' : Char) = '"' ↔ False from by decide, show ('\\' : Char) = '\n' ↔ False from by decide, if_false]
+    rw [lexStr_hex4 _ hn]
+    have : Char.ofNat c.toNat = c := Char.ofNat_toNat c
+    rw [this]
+  · simp only [hc]
+    simp [lexStr, h1, h2, h3]
+
+/-- **`escape_go_string` is inverted by Go's string-literal lexing**, for every string: the text
+    `escape_go_string(s)` followed by the closing quote (the printer puts the opening quote before it) is lexed as one
+    interpreted string literal whose value is `s` — whatever characters `s` holds (quote, backslash, newline,
+    carriage return, tab, the other control characters U+0000–U+001F / U+007F–U+009F, which become `\uXXXX`,
+    and everything else, non-ASCII included, which is copied) — and lexing stops right after that quote. -/
+theorem escape_go_string_decodes (s : List Char) (rest : List Char) :
+    lexStr .normal (escapeChars s ++ '"' :: rest) = some (s, rest) := by
+  induction s with
+  | nil => simp [escapeChars, lexStr]
+  | cons c cs ih =>
+    rw [escapeChars, List.append_assoc, lexStr_escapeChar, ih]
+    rfl
+
+/-- the same on `String`s, as the printer builds the token: `"\"" ++ escape_go_string(value) ++ "\""` -/
+theorem escape_go_string_decodes_string (v : String) :
+    lexStr .normal ((escapeGoString v).toList ++ ['"']) = some (v.toList, []) := by
+  have := escape_go_string_decodes v.toList []
+  simpa [escapeGoString] using this
+
 end Goml.GoPrint
